@@ -22,7 +22,7 @@ def _angle_class(value):
 class C17(Check):
     pid = "C17"
     level = "exploration"
-    budgets = {"quick": (800, 16), "thorough": (11000, 16)}
+    budgets = {"quick": (600, 16), "thorough": (3500, 16)}
     rule = (
         "Programs: one BlockModel (1-5 cells/axis, monotone delimiters from 0, increasing or decreasing), Grid2D "
         "(counts 1-6, +/- cell sizes, rotation/dip from exact angles or arbitrary floats, vertical flag), Octree "
